@@ -37,7 +37,10 @@ def check_case(run, case, determinism=False):
             run.inconc('language above cap')
             return
         index, total = gstream.oracle_index(lang)
-        pcfg, mon = gstream.run_queue(path, flags)
+        try:
+            pcfg, mon = gstream.run_queue(path, flags, max_pops=total + 5)
+        except OverflowError:
+            run.violation(f'the queue keeps emitting pre-terminals beyond the {total} the language holds (no exhaustion)', case); return
         run.ev('POP', len(mon.pops))
         if case.get('train') is not None:
             case['spec']['base'] = [list(x) for x in disk.base_rows['Grammar']][:8]; case['spec']['prince'] = [list(x) for x in disk.base_rows['Prince']][:8]
